@@ -88,9 +88,9 @@ CHECKS["C07"] = dict(
     technique="TLA+ sign-structure predicate evaluated by TLC on lifted matrices + TLC check of observed step bounds")
 
 CHECKS["C08"] = dict(
-    text="The symmetry maps E (insertion of a redundant axis at any position with 1-2 cells and no-flux or periodic sides: Grid1D-2D-3D, CylindricalGrid1D to CylindricalGrid2D / PolarGrid2D, CylindricalGrid2D / PolarGrid2D to CylindricalGrid3D; every axis permutation and mirror of Cartesian grids with the velocity component reversed and sides swapped) are defined in FVProperties (Pre, EmbedField, C08_*). For seeded pairs (configuration, image) the real diffusion/central/upwind matrices applied to a mapped field, the ghost values, the TVD corrections and the solvePDE result for forward-mapped data are lifted and TLC checks that they commute with E exactly.",
+    text="The symmetry maps E (insertion of a redundant axis at any position with 1-2 cells and no-flux or periodic sides: Grid1D-2D-3D, CylindricalGrid1D to CylindricalGrid2D / PolarGrid2D, CylindricalGrid2D / PolarGrid2D to CylindricalGrid3D; every axis permutation and mirror of Cartesian grids with the velocity component reversed and sides swapped, cyclic shifts along a periodic uniform axis) are defined in FVProperties (Pre, EmbedField, C08_*). For seeded pairs (configuration, image) the real diffusion/central/upwind matrices applied to a mapped field, the ghost values, the TVD corrections and the solvePDE result for forward-mapped data are lifted and TLC checks that they commute with E exactly.",
     ref="DESIGN.md 5/C08",
-    note="bounded sizes (N<=2 per axis on the small grid); cyclic shifts along periodic axes are not yet covered by a dedicated clause",
+    note="bounded sizes (N<=2 per axis on the small grid); cyclic shifts along periodic uniform axes included (upwind/TVD on periodic axes is a recorded finding)",
     technique="TLA+ symmetry maps + TLC trace validation of lifted outputs of both configurations")
 
 CHECKS["C17"] = dict(
